@@ -59,6 +59,37 @@ CHECKS = {
         "note": "Python's hash()/frozenset trusted (model hash = reduced item list); axioms: none.",
         "design": "5/C05",
     },
+    "C06": {
+        "text": ("Theorems: aggregate_weighted returns exactly the weighted mixture of its branches (integer form and "
+                 "normalised rational form), zero-total/empty histogram branches are dropped and the rest renormalised; "
+                 "foreach / @expandable with any non-recursive callback (an arbitrary function of the tuple of source "
+                 "results) is the lowest-terms reduction of that aggregate over the Cartesian product of source results "
+                 "weighted by the product of counts; pool sources enumerate by C02's proved rolls_with_counts. "
+                 "Correspondence: 1-3 sources of every kind x lookup-table callbacks x every positional/keyword split, "
+                 "aggregate_weighted directly, deprecated P.foreach/H.foreach."),
+        "note": "callbacks in the correspondence are finite lookup tables; axioms: none.",
+        "design": "5/C06",
+    },
+    "C09": {
+        "text": ("Theorems: order_stat_for_n_at_pos has exactly the brute-force counts of the value at that position "
+                 "(the same sum C03 proves for (n@P(h)).h(pos)); summed over positions n*h[z]*total^(n-1); "
+                 "exactly_k_times_in_n equals brute force and the count of k in n@(h.eq(o)); appearances_in_rolls is the "
+                 "histogram of how many dice show o; the per-instance cache never changes an answer for any call history. "
+                 "Correspondence with interleaved call histories on shared objects."),
+        "note": "math.comb = Pascal binomial; the instance cache is an association list; axioms: none.",
+        "design": "5/C09",
+    },
+    "C14": {
+        "text": ("Theorems over the interpreter model with the ContextVar as threaded state and an injected exception at "
+                 "an arbitrary callback invocation index: the context is restored after every call (normal or "
+                 "exceptional exit, any nesting); a later top-level evaluation equals the one from a fresh interpreter; the "
+                 "injected exception reaches the caller unchanged if reached, else the run is the fault-free one; only "
+                 "RecursionError is converted into the sentinel. Correspondence: marker exception raised at every kind of "
+                 "invocation index of generated mechanics (nested, pool sources), exception identity and follow-up probes "
+                 "(default limit, explicit limits, explode, substitute) compared with stateless oracle and model."),
+        "note": "PARTIAL: thread-level ContextVar behaviour and the real interpreter stack limit (modelled by fuel) are not exhibited; axioms: none.",
+        "design": "5/C14",
+    },
     "C16": {
         "text": ("Theorems over exact rationals: distribution lists every outcome once in order with (count, total), "
                  "probabilities sum to 1, variance = E[(X-mu)^2], mean/variance invariant under scaling and zero padding "
